@@ -12,7 +12,8 @@ class C06(ProgCheck):
     pid = "C06"
     proof_modules = ["BlocV.Proofs.C06"]
     rule = ("(a) for-headers: every (first, limit, step, direction) over a boundary lattice incl. INT64_MIN/MAX, null and "
-            "invalid steps, body prints the iterator; also bodies that modify the control variable; (b) bounded-exhaustive "
+            "invalid steps, body prints the iterator; also bodies that modify the control variable, and bodies that set it to a null integer (`int()` or a null variable) "
+            "(at the first / a later iteration, ascending / descending, with continue, inside begin…when others, nested): NOT_INTEGER (rerr 8), never a crash; (b) bounded-exhaustive "
             "nestings of for/while/if/begin with break/continue/return/raise at each position; (c) seeded random "
             "structured programs with loop emphasis (half of them with table variables, forall, writes through the iterator and "
             "container methods); (d) forall: table sizes 0..4 and null x direction x variable/temporary source x read / write "
@@ -21,7 +22,9 @@ class C06(ProgCheck):
             "after the run, control/exec depth and constraint flags (BLOC_VERIF accessors). distinct = program text.")
 
     def hazard_kf(self, c, hazard):
-        return "C06.for_iterator_set_null" if hazard == "nullDeref" else None
+        # no hazard outcome of the model is a listed finding of this property any more: the null control variable
+        # (C06.for_iterator_set_null, fixed in dcf5ae2) is now the BLOC error NOT_INTEGER (`rerr 8`) in model and code alike
+        return None
 
     def gen_cases(self):
         quick = self.tier == "quick"
@@ -64,7 +67,27 @@ class C06(ProgCheck):
                               ("if", [(("bin", "GT", ("var", "N"), I(10)), [("break",)])]),
                               ("if", [(("bin", "EQ", ("bin", "MOD", ("var", "N"), I(2)), I(1)), [("let", "K", ("bin", "ADD", ("var", "K"), I(delta)))])])])]
                     add(prog, {"family": "for-modify"})
+        # bodies that set the control variable to null: the re-entry raises NOT_INTEGER (model: `rerr 8`), whatever the null's type,
+        # the iteration, the direction, the way the body ends; NOT_INTEGER is not catchable (`when others` does not match it)
         add([("for", "K", I(1), I(3), None, "auto", [("let", "K", L("N:i0"))])], {"family": "for-null-iterator"})
+        # (an untyped `null` cannot be assigned to the type safe control variable: parse error TYPE_MISMATCH; the null arrives as
+        # `int()` or through a null integer variable)
+        for nulx in (L("N:i0"), ("var", "Z")):
+            for b, e, d in ((1, 3, "auto"), (3, 1, "auto"), (3, 1, "desc"), (2, 2, "asc"), (I64MAX - 1, I64MAX, "auto"), (I64MIN + 1, I64MIN, "auto")):
+                for at in (0, 1):
+                    for tail in ("none", "continue", "print"):
+                        setnull = [("let", "K", nulx)] + ([("continue",)] if tail == "continue" else [("print", [S("set")])] if tail == "print" else [])
+                        body = [("print", [("var", "K")]), ("if", [(("bin", "EQ", ("var", "N"), I(at)), setnull)]),
+                                ("let", "N", ("bin", "ADD", ("var", "N"), I(1)))]
+                        loop = ("for", "K", I(b), I(e), None, d, body)
+                        add([("let", "Z", L("N:i0")), ("let", "N", I(0)), loop, ("print", [S("after")])], {"family": "for-null-iterator"})
+                        add([("let", "Z", L("N:i0")), ("let", "N", I(0)), ("begin", [loop], [("OTHERS", [("print", [S("caught")])])]), ("print", [S("after")])],
+                            {"family": "for-null-iterator"})
+            add([("let", "Z", L("N:i0")), ("for", "A", I(0), I(1), None, "auto", [("for", "K", I(0), I(2), None, "auto", [("let", "K", nulx)])]),
+                 ("print", [S("after")])], {"family": "for-null-iterator"})
+            add([("let", "Z", L("N:i0")), ("let", "W", I(0)), ("while", ("bin", "LT", ("var", "W"), I(2)),
+                 [("let", "W", ("bin", "ADD", ("var", "W"), I(1))), ("for", "K", I(0), I(2), I(2), "auto", [("let", "K", nulx)])])],
+                {"family": "for-null-iterator"})
         # bounded-exhaustive nestings: two loops, one exit statement at each position
         exits = [("break",), ("continue",), ("return", I(7)), ("raise", "E1"), ("nop",)]
         loops = ["for", "while", "forall"]
